@@ -335,7 +335,22 @@ func init() {
 			if efn != nil {
 				eu := FuncUnit{efn, efd, epkg}
 				found := false
+				direct := c.directlyDeferred(eu)
 				for _, w := range c.censusFor(nil).WritersOf(gs) {
+					if w.Lit == nil && direct[w.Unit.Obj] {
+						// `defer env.leaveEval(&result)`: the handler is a declared method
+						hasRecover := false
+						for _, ce := range callsIn(w.Unit.Decl.Body, false) {
+							if id, isId := ast.Unparen(ce.Fun).(*ast.Ident); isId && id.Name == "recover" {
+								hasRecover = true
+							}
+						}
+						if hasRecover {
+							found = true
+							obs = append(obs, mkOb(c, "PANICMARK.shape", eu, "GoStack store", w.Node, Proved, "stored in the recover handler eval defers", true))
+						}
+						continue
+					}
 					if w.Unit.Obj == efn && w.Lit != nil && isDeferredLit(efd, w.Lit) {
 						// the closure must call recover()
 						hasRecover := false
@@ -676,34 +691,79 @@ func init() {
 			u := FuncUnit{fn, fd, pkg}
 			info := pkg.TypesInfo
 			condConst := c.Pkg("lisp").Types.Scope().Lookup("CondInternalPanic")
-			var lit *ast.FuncLit
+			// named result
+			var resObj types.Object
+			if fd.Type.Results != nil && len(fd.Type.Results.List) == 1 && len(fd.Type.Results.List[0].Names) == 1 {
+				resObj = info.Defs[fd.Type.Results.List[0].Names[0]]
+			}
+			// the handler: a deferred closure calling recover(), or a declared function deferred
+			// directly (`defer env.leaveEval(&result)`) that calls recover() in its own body and
+			// reaches eval's result through the pointer it is handed
+			var lit ast.Node
+			var litBody *ast.BlockStmt
+			hu := u
+			isRes := func(e ast.Expr) bool { return resObj != nil && identObj(info, e) == resObj }
+			callsRecover := func(body ast.Node) bool {
+				for _, ce := range callsIn(body, false) {
+					if id, isId := ast.Unparen(ce.Fun).(*ast.Ident); isId && id.Name == "recover" {
+						return true
+					}
+				}
+				return false
+			}
 			ast.Inspect(fd.Body, func(n ast.Node) bool {
-				if d, ok := n.(*ast.DeferStmt); ok {
-					if l := deferredLit(d); l != nil {
-						for _, ce := range callsIn(l.Body, false) {
-							if id, isId := ast.Unparen(ce.Fun).(*ast.Ident); isId && id.Name == "recover" {
-								lit = l
-							}
+				d, ok := n.(*ast.DeferStmt)
+				if !ok {
+					return true
+				}
+				if l := deferredLit(d); l != nil {
+					if callsRecover(l.Body) {
+						lit, litBody = l, l.Body
+					}
+					return true
+				}
+				h := originOf(Callee(info, d.Call))
+				hd := c.declOf[h]
+				if h == nil || hd == nil || hd.Body == nil || !callsRecover(hd.Body) {
+					return true
+				}
+				// the parameter bound to &result
+				hunit := FuncUnit{h, hd, c.pkgOf[hd]}
+				hinfo := hunit.Pkg.TypesInfo
+				var ptrParam types.Object
+				for i, a := range d.Call.Args {
+					if ue, isU := ast.Unparen(a).(*ast.UnaryExpr); isU && ue.Op == token.AND && resObj != nil && identObj(info, ue.X) == resObj {
+						if ps := paramObjs(hunit); i < len(ps) {
+							ptrParam = ps[i]
 						}
 					}
+				}
+				if ptrParam == nil {
+					return true
+				}
+				lit, litBody, hu = hd, hd.Body, hunit
+				isRes = func(e ast.Expr) bool {
+					st, isStar := ast.Unparen(e).(*ast.StarExpr)
+					return isStar && identObj(hinfo, st.X) == ptrParam
 				}
 				return true
 			})
 			if lit == nil || condConst == nil {
 				return []Obligation{mkOb(c, "PANICMARK.recover-wraps", u, "recover handler", fd, Violated, "eval has no deferred function calling recover()", true)}
 			}
-			// named result
-			var resObj types.Object
-			if fd.Type.Results != nil && len(fd.Type.Results.List) == 1 && len(fd.Type.Results.List[0].Names) == 1 {
-				resObj = info.Defs[fd.Type.Results.List[0].Names[0]]
-			}
 			if resObj == nil {
 				return []Obligation{mkOb(c, "PANICMARK.recover-wraps", u, "named result", fd, Undecided, "eval has no named result", false)}
 			}
-			fc := c.cfgOf(u, lit)
+			var fc *FCFG
+			if fl, isLit := lit.(*ast.FuncLit); isLit {
+				fc = c.cfgOf(u, fl)
+			} else {
+				fc = c.cfgOf(hu, nil)
+				info = hu.Pkg.TypesInfo
+			}
 			// recovered variable
 			var recObj types.Object
-			ast.Inspect(lit.Body, func(n ast.Node) bool {
+			ast.Inspect(litBody, func(n ast.Node) bool {
 				if as, ok := n.(*ast.AssignStmt); ok && len(as.Lhs) == 1 && len(as.Rhs) == 1 {
 					if ce, ok := ast.Unparen(as.Rhs[0]).(*ast.CallExpr); ok {
 						if id, isId := ast.Unparen(ce.Fun).(*ast.Ident); isId && id.Name == "recover" {
@@ -720,10 +780,14 @@ func init() {
 			wrapHelpers := map[*types.Func]bool{}
 			isWrap := func(n ast.Node) bool {
 				as, ok := n.(*ast.AssignStmt)
-				if !ok || len(as.Lhs) != 1 || len(as.Rhs) != 1 || identObj(info, as.Lhs[0]) != resObj {
+				if !ok || len(as.Lhs) != 1 || len(as.Rhs) != 1 || !isRes(as.Lhs[0]) {
 					return false
 				}
-				ce, ok := ast.Unparen(as.Rhs[0]).(*ast.CallExpr)
+				rhs := as.Rhs[0]
+				if d := soleDef(info, litBody, rhs); d != nil {
+					rhs = d // `lerr := ErrorConditionf(…); …; result = lerr`
+				}
+				ce, ok := ast.Unparen(rhs).(*ast.CallExpr)
 				if !ok || len(ce.Args) < 1 {
 					return false
 				}
@@ -739,10 +803,10 @@ func init() {
 			}
 			// all assignments to result in the closure are wraps
 			other := 0
-			ast.Inspect(lit.Body, func(n ast.Node) bool {
+			ast.Inspect(litBody, func(n ast.Node) bool {
 				if as, ok := n.(*ast.AssignStmt); ok {
 					for _, l := range as.Lhs {
-						if identObj(info, l) == resObj && !isWrap(as) {
+						if isRes(l) && !isWrap(as) {
 							other++
 						}
 					}
@@ -801,4 +865,26 @@ func init() {
 			}
 			return obs
 		}})
+}
+
+// directlyDeferred: the declared functions u defers directly (`defer x.h(…)`), i.e. the
+// ones that run as u's deferred handlers and may call recover() themselves.
+func (c *Ctx) directlyDeferred(u FuncUnit) map[*types.Func]bool {
+	out := map[*types.Func]bool{}
+	if u.Decl == nil || u.Decl.Body == nil {
+		return out
+	}
+	info := u.Pkg.TypesInfo
+	ast.Inspect(u.Decl.Body, func(n ast.Node) bool {
+		if _, isLit := n.(*ast.FuncLit); isLit {
+			return false
+		}
+		if d, ok := n.(*ast.DeferStmt); ok {
+			if h := originOf(Callee(info, d.Call)); h != nil && c.declOf[h] != nil {
+				out[h] = true
+			}
+		}
+		return true
+	})
+	return out
 }
